@@ -29,6 +29,19 @@ def gen(seed, tier):
     for src in sy.gen_sources(r, n_record=8, ge=4):
         for dec in (["max", 4], ["pi", 5], ["full", 3], ["prog"], ["max", 1]):
             cases.append({"op": "create", "decl": allforms, "decider": dec, "src": src})
+    # the classes are used once, then a constructor annotation is re-declared (the documented pattern) and the grammar extracted again
+    base0 = {"classes": [
+        {"parent": None, "abs": "abc", "fields": [], "weight": None},
+        {"parent": 0, "abs": None, "fields": [INT, S(0)], "weight": None},
+        {"parent": 0, "abs": None, "fields": [INT], "weight": None},
+        {"parent": None, "abs": "abc", "fields": [], "weight": None},
+        {"parent": 3, "abs": None, "fields": [BOOL], "weight": None}], "considered": [0, 1, 2, 3, 4], "start": 0, "xdepth": False}
+    import copy
+    for new_ty in (FLOAT, ["ann", FLOAT, ["floatrange", [0, 1], [1, 1]]], S(3), ["list", BOOL], ["tuple", [BOOL, INT]]):
+        d1 = copy.deepcopy(base0)
+        d1["classes"][2]["fields"][0] = new_ty
+        for src in sy.gen_sources(r, n_record=3, extremes=("min",), ge=1):
+            cases.append({"op": "create", "decl0": base0, "decl": d1, "decider": ["max", 4], "src": src})
     for _ in range(300 if big else 80):
         d = grammars.gen_decl(r, {"weights": r.random() < 0.2, "tuples": True, "strs": True})
         for src in sy.gen_sources(r, n_record=1, extremes=(r.choice(["min", "max", "alt"]),), ge=1):
